@@ -247,6 +247,42 @@ var c14Pathological = []struct{ name, text string }{
 	{"union empty", "module m { namespace \"u\"; prefix p; leaf x { type union; } }"},
 	{"enum empty", "module m { namespace \"u\"; prefix p; leaf x { type enumeration; } }"},
 	{"config true under false", "module m { namespace \"u\"; prefix p; container c { config false; leaf x { config true; type string; } } }"},
+	{"leafref to container", "module m { namespace \"u\"; prefix p; container c { leaf a { type string; } } leaf x { type leafref { path \"../c\"; } } }"},
+	{"leafref to list", "module m { namespace \"u\"; prefix p; list l { key k; leaf k { type string; } } leaf x { type leafref { path \"../l\"; } } }"},
+	{"leafref to choice", "module m { namespace \"u\"; prefix p; choice ch { leaf a { type string; } } leaf x { type leafref { path \"../ch\"; } } }"},
+	{"leafref to itself", "module m { namespace \"u\"; prefix p; leaf x { type leafref { path \"../x\"; } } }"},
+	{"leafref mutual", "module m { namespace \"u\"; prefix p; leaf x { type leafref { path \"../y\"; } } leaf y { type leafref { path \"../x\"; } } }"},
+	{"leafref in typedef to container", "module m { namespace \"u\"; prefix p; typedef r { type leafref { path \"../c\"; } } container c { leaf a { type string; } } leaf x { type r; } }"},
+	{"key names container", "module m { namespace \"u\"; prefix p; list l { key c; container c { leaf a { type string; } } } }"},
+	{"key names leaf-list", "module m { namespace \"u\"; prefix p; list l { key c; leaf-list c { type string; } } }"},
+	{"unique names container", "module m { namespace \"u\"; prefix p; list l { key k; unique c; leaf k { type string; } container c { leaf a { type string; } } } }"},
+	{"augment targets leaf", "module m { namespace \"u\"; prefix p; leaf a { type string; } augment \"/a\" { leaf x { type string; } } }"},
+	{"augment targets rpc", "module m { namespace \"u\"; prefix p; rpc r { input { leaf i { type string; } } } augment \"/r\" { leaf x { type string; } } }"},
+	{"refine default on container", "module m { namespace \"u\"; prefix p; grouping g { container a { leaf l { type string; } } } container c { uses g { refine a { default \"1\"; mandatory true; max-elements 3; min-elements 1; } } } }"},
+	{"refine presence on leaf", "module m { namespace \"u\"; prefix p; grouping g { leaf a { type string; } } container c { uses g { refine a { presence \"x\"; config false; } } } }"},
+	{"deviate replace type on container", "module m { namespace \"u\"; prefix p; container c { leaf a { type string; } } deviation /c { deviate replace { type int32; default 1; units s; mandatory true; min-elements 1; max-elements 2; config false; } } }"},
+	{"deviate add unique on leaf", "module m { namespace \"u\"; prefix p; leaf a { type string; } deviation /a { deviate add { unique x; must \"1\"; default d; } } }"},
+	{"deviate delete on leaf", "module m { namespace \"u\"; prefix p; leaf a { type string; } deviation /a { deviate delete { unique x; must \"1\"; default d; units s; } } }"},
+	{"choice default names nested", "module m { namespace \"u\"; prefix p; choice c { default x; case a { leaf x { type string; } } } }"},
+	{"uses names typedef", "module m { namespace \"u\"; prefix p; typedef g { type string; } container c { uses g; } }"},
+	{"type names grouping", "module m { namespace \"u\"; prefix p; grouping g { leaf a { type string; } } leaf x { type g; } }"},
+	{"identityref base names feature", "module m { namespace \"u\"; prefix p; feature i; leaf x { type identityref { base i; } } }"},
+	{"identityref no base", "module m { namespace \"u\"; prefix p; leaf x { type identityref; } }"},
+	{"leafref no path", "module m { namespace \"u\"; prefix p; leaf x { type leafref; } }"},
+	{"belongs-to in module", "module m { namespace \"u\"; prefix p; belongs-to x { prefix x; } leaf a { type string; } }"},
+	{"belongs-to bare in module", "module m { namespace \"u\"; prefix p; belongs-to x; leaf a { type string; } }"},
+	{"submodule alone", "submodule s { belongs-to m { prefix p; } leaf a { type string; } }"},
+	{"submodule without belongs-to", "submodule s { leaf a { type string; } }"},
+	{"import without source", "module m { namespace \"u\"; prefix p; import other { prefix o; } leaf a { type o:t; } }"},
+	{"include without source", "module m { namespace \"u\"; prefix p; include sub; }"},
+	{"if-feature unknown", "module m { namespace \"u\"; prefix p; leaf a { if-feature nosuch; type string; } }"},
+	{"if-feature malformed", "module m { namespace \"u\"; prefix p; feature f; leaf a { if-feature \"f and (\"; type string; } leaf b { if-feature \"not\"; type string; } leaf c { if-feature \") or (\"; type string; } }"},
+	{"default not in enum", "module m { namespace \"u\"; prefix p; leaf a { type enumeration { enum x; } default y; } }"},
+	{"default not a number", "module m { namespace \"u\"; prefix p; leaf a { type int32; default zz; } leaf-list b { type uint8; default 300; } }"},
+	{"union of leafrefs", "module m { namespace \"u\"; prefix p; leaf a { type string; } leaf x { type union { type leafref { path \"../a\"; } type leafref { path \"../nosuch\"; } } } }"},
+	{"rpc input twice", "module m { namespace \"u\"; prefix p; rpc r { input { leaf i { type string; } } input { leaf j { type string; } } output { } output { } } }"},
+	{"action in list without key", "module m { namespace \"u\"; prefix p; list l { action a { input { leaf i { type string; } } } notification n { leaf e { type string; } } } }"},
+	{"extension argument misuse", "module m { namespace \"u\"; prefix p; extension e; p:e \"a\" { p:e { p:nosuch; } } q:zz; }"},
 }
 
 func H_C14_pathological() {
@@ -309,12 +345,20 @@ func (r *c14Reader) Read(p []byte) (int, error) {
 	return n, nil
 }
 
-const c14Main = `module m { namespace "u"; prefix p; import other { prefix o; } include sub; leaf x { type o:t; } }`
+const c14Main = `module m { namespace "u"; prefix p; import other { prefix o; } include sub; identity mi; leaf x { type o:t; } }`
 const c14Other = `module other { namespace "o"; prefix o; typedef t { type string; } }`
+const c14OtherBack = `module other { namespace "o"; prefix o; import m { prefix m; } typedef t { type string; } identity oi; }`
+const c14OtherThird = `module other { namespace "o"; prefix o; import third { prefix t; } typedef t { type string; } }`
+const c14Third = `module third { namespace "t"; prefix t; import m { prefix m; } identity ti; }`
+const c14SubSelf = `submodule sub { belongs-to m { prefix p; } include sub; include m; leaf s { type string; } }`
+const c14OtherUses = `module other { namespace "o"; prefix o; import m { prefix m; } typedef t { type string; } identity oi { base m:mi; } leaf oy { type leafref { path "/m:x"; } } }`
+const c14AliasX = `module x { namespace "x"; prefix x; import other2 { prefix y; } typedef t { type string; } }`
+const c14AliasY = `module y { namespace "y"; prefix y; import other { prefix x; } }`
+const c14AliasSelf = `module z { namespace "z"; prefix z; import elsewhere { prefix e; } typedef t { type string; } }`
 const c14Sub = `submodule sub { belongs-to m { prefix p; } leaf s { type string; } }`
 
 func H_C14_opener_faults() {
-	behaviour := vpChoose(8)
+	behaviour := vpChoose(14)
 	opener := func(name string, ext string) (io.Reader, error) {
 		switch behaviour {
 		case 0: // everything available
@@ -340,6 +384,47 @@ func H_C14_opener_faults() {
 			}
 		case 7: // garbage
 			return &c14Reader{s: "}}}{{{ ;;; \"", failAt: -1}, nil
+		case 8: // plain mutual import: other imports m back
+			if name == "other" {
+				return &c14Reader{s: c14OtherBack, failAt: -1}, nil
+			}
+			if name == "m" {
+				return &c14Reader{s: c14Main, failAt: -1}, nil
+			}
+		case 9: // import cycle of length three: m -> other -> third -> m
+			switch name {
+			case "other":
+				return &c14Reader{s: c14OtherThird, failAt: -1}, nil
+			case "third":
+				return &c14Reader{s: c14Third, failAt: -1}, nil
+			case "m":
+				return &c14Reader{s: c14Main, failAt: -1}, nil
+			}
+		case 10: // the submodule includes itself / its parent module
+			if name == "sub" {
+				return &c14Reader{s: c14SubSelf, failAt: -1}, nil
+			}
+			if name == "m" {
+				return &c14Reader{s: c14Main, failAt: -1}, nil
+			}
+		case 12: // an import cycle through file names that differ from the module names inside
+			switch name {
+			case "other":
+				return &c14Reader{s: c14AliasX, failAt: -1}, nil
+			case "other2":
+				return &c14Reader{s: c14AliasY, failAt: -1}, nil
+			}
+		case 13: // every name is answered with one and the same module that imports yet another name
+			if name != "sub" {
+				return &c14Reader{s: c14AliasSelf, failAt: -1}, nil
+			}
+		case 11: // mutual import where each side uses the other's definitions
+			if name == "other" {
+				return &c14Reader{s: c14OtherUses, failAt: -1}, nil
+			}
+			if name == "m" {
+				return &c14Reader{s: c14Main, failAt: -1}, nil
+			}
 		}
 		switch name {
 		case "other":
@@ -357,3 +442,92 @@ func H_C14_opener_faults() {
 	vpCover("reached")
 }
 
+// every statement keyword placed in every block statement: a misplaced statement is an error, never a crash
+var c14Blocks = []string{"module", "container", "list", "leaf", "leaf-list", "choice", "case", "grouping", "typedef", "type", "rpc", "input", "output",
+	"action", "notification", "augment", "uses", "refine", "deviation", "deviate", "identity", "feature", "extension", "revision", "import", "include",
+	"enum", "bit", "range", "length", "pattern", "must", "when", "anyxml", "anydata"}
+var c14Stmts = []string{"namespace u", "prefix p", "yang-version 1.1", "organization o", "contact c", "description d", "reference r", "revision 2020-01-01",
+	"revision-date 2020-01-01", "import other { prefix o; }", "include sub", "belongs-to m { prefix p; }", "feature f2", "if-feature f1", "identity i2 { base i1; }", "base i1",
+	"typedef t2 { type string; }", "type string", "type int32 { range \"1..2\"; }", "type enumeration { enum a; }", "type leafref { path \"../zz\"; }", "type union { type string; }",
+	"type identityref { base i1; }", "type bits { bit b; }", "type decimal64 { fraction-digits 2; }", "fraction-digits 2", "range \"1..2\"", "length \"1..2\"", "pattern \"a*\"",
+	"enum e", "bit b", "value 3", "position 3", "path \"../zz\"", "require-instance true", "units s", "default 1", "config false", "mandatory true", "presence p", "status deprecated",
+	"min-elements 1", "max-elements 2", "ordered-by user", "key k", "unique k", "must \"1\"", "when \"1\"", "error-message e", "error-app-tag t",
+	"container c2 { leaf z { type string; } }", "leaf z2 { type string; }", "leaf-list z3 { type string; }", "list z4 { key k; leaf k { type string; } }", "choice z5 { leaf z6 { type string; } }",
+	"case z7 { leaf z8 { type string; } }", "anyxml z9", "anydata z10", "grouping g2 { leaf z11 { type string; } }", "uses g1", "uses g1 { refine gx { default 3; } }", "refine gx { default 3; }",
+	"augment \"/c\" { leaf z12 { type string; } }", "augment \"c\" { leaf z12 { type string; } }", "rpc r2 { input { leaf i { type string; } } }", "action a2 { input { leaf i { type string; } } }",
+	"input { leaf i2 { type string; } }", "output { leaf o2 { type string; } }", "notification n2 { leaf e { type string; } }", "extension x2 { argument a; }", "argument a", "yin-element true",
+	"deviation /c { deviate not-supported; }", "deviate not-supported", "deviate add { default 1; }", "deviate replace { type string; }", "deviate delete { units s; }", "p:ext1 arg", "p:ext1", "modifier invert-match"}
+
+func c14Placed(block, stmt string) string {
+	var sb strings.Builder
+	sb.WriteString("module m { namespace \"u\"; prefix p; feature f1; identity i1; extension ext1 { argument a; } grouping g1 { leaf gx { type int32; } } container c { leaf k { type string; } } ")
+	inner := stmt + "; "
+	if strings.HasSuffix(stmt, "}") {
+		inner = stmt + " "
+	}
+	switch block {
+	case "module":
+		sb.WriteString(inner)
+	case "container", "list", "choice", "case", "grouping", "rpc", "notification", "anyxml", "anydata", "identity", "feature", "extension", "typedef":
+		sb.WriteString(block + " b1 { " + inner + "} ")
+	case "leaf", "leaf-list":
+		sb.WriteString(block + " b1 { type string; " + inner + "} ")
+	case "type":
+		sb.WriteString("leaf b1 { type int32 { " + inner + "} } ")
+	case "enum":
+		sb.WriteString("leaf b1 { type enumeration { enum e1 { " + inner + "} } } ")
+	case "bit":
+		sb.WriteString("leaf b1 { type bits { bit b1 { " + inner + "} } } ")
+	case "range":
+		sb.WriteString("leaf b1 { type int32 { range \"1..2\" { " + inner + "} } } ")
+	case "length":
+		sb.WriteString("leaf b1 { type string { length \"1..2\" { " + inner + "} } } ")
+	case "pattern":
+		sb.WriteString("leaf b1 { type string { pattern \"a\" { " + inner + "} } } ")
+	case "must", "when":
+		sb.WriteString("leaf b1 { type string; " + block + " \"1\" { " + inner + "} } ")
+	case "input", "output":
+		sb.WriteString("rpc b1 { " + block + " { " + inner + "} } ")
+	case "action":
+		sb.WriteString("container b0 { action b1 { " + inner + "} } ")
+	case "augment":
+		sb.WriteString("augment \"/c\" { " + inner + "} ")
+	case "uses":
+		sb.WriteString("container b1 { uses g1 { " + inner + "} } ")
+	case "refine":
+		sb.WriteString("container b1 { uses g1 { refine gx { " + inner + "} } } ")
+	case "deviation":
+		sb.WriteString("deviation /c/k { " + inner + "} ")
+	case "deviate":
+		sb.WriteString("deviation /c/k { deviate add { " + inner + "} } ")
+	case "revision":
+		sb.WriteString("revision 2021-01-01 { " + inner + "} ")
+	case "import":
+		sb.WriteString("import other { prefix o; " + inner + "} ")
+	case "include":
+		sb.WriteString("include sub { " + inner + "} ")
+	}
+	sb.WriteString("}")
+	return sb.String()
+}
+
+func c14PlacementOpener(name string, ext string) (io.Reader, error) {
+	switch name {
+	case "other":
+		return &c14Reader{s: c14Other, failAt: -1}, nil
+	case "sub":
+		return &c14Reader{s: c14Sub, failAt: -1}, nil
+	}
+	return nil, errors.New("vp no such file")
+}
+
+func c14Placement(blocks []string) {
+	block := blocks[vpChoose(len(blocks))]
+	stmt := c14Stmts[vpChoose(len(c14Stmts))]
+	_, p := c14Load(c14Placed(block, stmt), c14PlacementOpener)
+	vpAssertK("C14-placement-"+block, true, !p, "statement '"+stmt+"' inside a "+block+" block loads or fails with an error")
+	vpCover("reached")
+}
+
+func H_C14_placement_core()   { c14Placement(c14Blocks[:8]) }
+func H_C14_T_placement_rest() { c14Placement(c14Blocks[8:]) }
